@@ -1,6 +1,6 @@
 (** C04, parsing theorem: every redirection spelling of the property, attached
     or spaced, between arbitrary pass-through argument tokens, is parsed by
-    [tokens_to_redirections] / [from_tokens] (Model/Redirs.v) to exactly the
+    [tokens_to_redirections] / [from_tokens_core] (Model/Redirs.v) to exactly the
     triple the property names, the arguments coming out unchanged and in order. *)
 From Coq Require Import Lia.
 From Cicada Require Import Base.Chars Model.Redirs.
@@ -307,7 +307,7 @@ Proof.
     rewrite (IH last Hi' Hl). cbn. reflexivity.
 Qed.
 
-(** ** [Command::from_tokens]: the input redirections *)
+(** ** [Command::from_tokens_core]: the input redirections *)
 
 Definition no_from (l : list tok) : Prop := existsb is_from_tok l = false.
 
@@ -372,21 +372,21 @@ Lemma no_from_app : forall a b, no_from a -> no_from b -> no_from (a ++ b).
 Proof. unfold no_from. intros. rewrite existsb_app, H, H0. reflexivity. Qed.
 
 Lemma from_tokens_none : forall l, no_from l ->
-  from_tokens l = match tokens_to_redirections l with
+  from_tokens_core l = match tokens_to_redirections l with
                   | RErr e => R2Err e | ROk t rd => R2Ok t rd None end.
 Proof.
-  intros l H. unfold from_tokens. rewrite H. rewrite ft_while_false. reflexivity.
+  intros l H. unfold from_tokens_core. rewrite H. rewrite ft_while_false. reflexivity.
 Qed.
 
 (** cmd ... < f ...   (any separators, any f - even f = [<]) *)
 Theorem C04_parse_from_lt : forall pre post s2 f, no_from pre -> no_from post ->
-  from_tokens (pre ++ [([], s_lt); (s2, f)] ++ post)
-  = set_from (Some (s_lt, f)) (from_tokens (pre ++ post)).
+  from_tokens_core (pre ++ [([], s_lt); (s2, f)] ++ post)
+  = set_from (Some (s_lt, f)) (from_tokens_core (pre ++ post)).
 Proof.
   intros pre post s2 f Hpre Hpost. cbn [app].
   rewrite (from_tokens_none (pre ++ post) (no_from_app _ _ Hpre Hpost)).
   destruct (no_from_word pre Hpre) as [P1 P3], (no_from_word post Hpost) as [Q1 Q3].
-  unfold from_tokens.
+  unfold from_tokens_core.
   assert (E : existsb is_from_tok (pre ++ ([], s_lt) :: (s2, f) :: post) = true).
   { rewrite existsb_app. cbn. now rewrite orb_true_r. }
   rewrite E. cbn [ft_while negb]. rewrite take_from_hit by exact P1.
@@ -399,13 +399,13 @@ Qed.
     (that word is taken for an input operator whatever its quoting). *)
 Theorem C04_parse_from_lt3 : forall pre post s2 f, no_from pre -> no_from post ->
   f <> s_lt ->
-  from_tokens (pre ++ [([], s_lt3); (s2, f)] ++ post)
-  = set_from (Some (s_lt3, f)) (from_tokens (pre ++ post)).
+  from_tokens_core (pre ++ [([], s_lt3); (s2, f)] ++ post)
+  = set_from (Some (s_lt3, f)) (from_tokens_core (pre ++ post)).
 Proof.
   intros pre post s2 f Hpre Hpost Hf. cbn [app].
   rewrite (from_tokens_none (pre ++ post) (no_from_app _ _ Hpre Hpost)).
   destruct (no_from_word pre Hpre) as [P1 P3], (no_from_word post Hpost) as [Q1 Q3].
-  unfold from_tokens.
+  unfold from_tokens_core.
   assert (E : existsb is_from_tok (pre ++ ([], s_lt3) :: (s2, f) :: post) = true).
   { rewrite existsb_app. cbn. now rewrite orb_true_r. }
   rewrite E. cbn [ft_while negb].
@@ -420,19 +420,19 @@ Qed.
 (** Both input spellings in one statement. *)
 Theorem C04_parse_from : forall op pre post s2 f,
   (op = s_lt \/ (op = s_lt3 /\ f <> s_lt)) -> no_from pre -> no_from post ->
-  from_tokens (pre ++ [([], op); (s2, f)] ++ post)
-  = set_from (Some (op, f)) (from_tokens (pre ++ post)).
+  from_tokens_core (pre ++ [([], op); (s2, f)] ++ post)
+  = set_from (Some (op, f)) (from_tokens_core (pre ++ post)).
 Proof.
   intros op pre post s2 f [->|[-> Hf]] Hpre Hpost.
   - now apply C04_parse_from_lt.
   - now apply C04_parse_from_lt3.
 Qed.
 
-(** [from_tokens] on a command without input redirection = C04_parse;
+(** [from_tokens_core] on a command without input redirection = C04_parse;
     the fuel is never exhausted and [Vec::remove] never panics there. *)
 Theorem C04_parse_cmd : forall items last,
   Forall item_ok items -> Forall plaintok last -> no_from (render items last) ->
-  from_tokens (render items last)
+  from_tokens_core (render items last)
   = R2Ok (flat_map fst items ++ last) (map (fun it => triple (snd it)) items) None.
 Proof.
   intros items last Hi Hl Hn. rewrite (from_tokens_none _ Hn).
@@ -441,7 +441,7 @@ Qed.
 
 (* Print Assumptions C04_parse.  Print Assumptions C04_parse_from.  Print Assumptions C04_parse_cmd. *)
 
-(** ** PROPOSED notes/C04-fix-5.patch: the attached spelling [<file] *)
+(** ** /repo 543507e: the attached spelling [<file]; [from_tokens] = split, then [from_tokens_core] *)
 Lemma flat_map_split_id : forall l, Forall (fun t => split_lt t = [t]) l -> flat_map split_lt l = l.
 Proof.
   induction l as [|t r IH]; intros H; [reflexivity|]. inversion H; subst. cbn [flat_map]. rewrite H2, IH; auto.
@@ -451,12 +451,42 @@ Theorem C04_parse_from_attached : forall pre post c r,
   c <> 60%N ->
   no_from pre -> no_from post ->
   Forall (fun t => split_lt t = [t]) pre -> Forall (fun t => split_lt t = [t]) post ->
-  from_tokens_att (pre ++ [([], 60%N :: c :: r)] ++ post)
-  = set_from (Some (s_lt, c :: r)) (from_tokens (pre ++ post)).
+  from_tokens (pre ++ [([], 60%N :: c :: r)] ++ post)
+  = set_from (Some (s_lt, c :: r)) (from_tokens_core (pre ++ post)).
 Proof.
-  intros pre post c r Hc Hpre Hpost Fpre Fpost. unfold from_tokens_att.
+  intros pre post c r Hc Hpre Hpost Fpre Fpost. unfold from_tokens.
   rewrite flat_map_app. cbn [app flat_map]. rewrite (flat_map_split_id pre Fpre), (flat_map_split_id post Fpost).
   unfold split_lt at 1. cbn [fst snd].
   rewrite N.eqb_refl. apply N.eqb_neq in Hc. rewrite Hc. cbn [negb andb app].
   apply (C04_parse_from_lt pre post [] (c :: r) Hpre Hpost).
+Qed.
+
+(** the spaced spellings, for the function as it is now: nothing around is itself an attached form *)
+Theorem C04_parse_from_spaced : forall op pre post s2 f,
+  (op = s_lt \/ (op = s_lt3 /\ f <> s_lt)) -> no_from pre -> no_from post ->
+  Forall (fun t => split_lt t = [t]) pre -> Forall (fun t => split_lt t = [t]) post ->
+  split_lt (s2, f) = [(s2, f)] ->
+  from_tokens (pre ++ [([], op); (s2, f)] ++ post)
+  = set_from (Some (op, f)) (from_tokens (pre ++ post)).
+Proof.
+  intros op pre post s2 f Hop Hpre Hpost Fpre Fpost Ff. unfold from_tokens.
+  assert (Fall : Forall (fun t => split_lt t = [t]) (pre ++ [([], op); (s2, f)] ++ post)).
+  { apply Forall_app. split; [exact Fpre|]. constructor; [|constructor; [exact Ff | exact Fpost]].
+    destruct Hop as [->|[-> _]]; reflexivity. }
+  rewrite (flat_map_split_id _ Fall).
+  rewrite (flat_map_split_id (pre ++ post)) by (apply Forall_app; split; assumption).
+  apply C04_parse_from; assumption.
+Qed.
+
+Theorem C04_parse_from_attached_now : forall pre post c r,
+  c <> 60%N ->
+  no_from pre -> no_from post ->
+  Forall (fun t => split_lt t = [t]) pre -> Forall (fun t => split_lt t = [t]) post ->
+  from_tokens (pre ++ [([], 60%N :: c :: r)] ++ post)
+  = set_from (Some (s_lt, c :: r)) (from_tokens (pre ++ post)).
+Proof.
+  intros pre post c r Hc Hpre Hpost Fpre Fpost.
+  rewrite (C04_parse_from_attached pre post c r Hc Hpre Hpost Fpre Fpost).
+  unfold from_tokens at 1. rewrite (flat_map_split_id (pre ++ post)) by (apply Forall_app; split; assumption).
+  reflexivity.
 Qed.
